@@ -117,7 +117,7 @@ Theorem cellbuffer_from_ok input : exists cb, cellbuffer_from input = Ok cb.
 Proof.
   unfold cellbuffer_from.
   destruct (find_sub LEGEND_MARK input []) as [[before from]|].
-  - destruct (parse_css_legend from).
+  - destruct (parse_css_legend (uncrlf from)).
     + destruct (cellbuffer_of_text_ok before l) as [cb [-> _]]; eauto.
     + destruct (cellbuffer_of_text_ok input []) as [cb [-> _]]; eauto.
   - destruct (cellbuffer_of_text_ok input []) as [cb [-> _]]; eauto.
